@@ -20,8 +20,9 @@ TSettled == /\ Is("settled") /\ Ev.m = cur.m
                  calls = d.calls /\ Ev.kind = d.settle
             /\ cur' = NoMsg /\ calls' = << >> /\ UNCHANGED cfg /\ Adv
 \* hook = what the bus' OnSend / OnPublish hook does: nothing, edit the message (the edit is published), fail (nothing is published)
+\* pubfail: the publisher refuses the message: it was offered once, and the caller gets the error
 TBus == Is("bus") /\ (IF Ev.hook = "fail" THEN Ev.calls = 0 /\ Ev.err
-                      ELSE /\ Ev.calls = 1 /\ ~Ev.err /\ Ev.topic = Ev.exptopic /\ Ev.name = Ev.expname /\ Ev.roundtrip
+                      ELSE /\ Ev.calls = 1 /\ Ev.err = (Has("pubfail") /\ Ev.pubfail) /\ Ev.topic = Ev.exptopic /\ Ev.name = Ev.expname /\ Ev.roundtrip
                            /\ Ev.marked = (Ev.hook = "mark") /\ Ev.ctxok)
         /\ UNCHANGED <<cfg, cur, calls>> /\ Adv
 TNext == TReset \/ TMsg \/ TInvoke \/ TSettled \/ TBus
